@@ -1,6 +1,6 @@
 (* ABI entries for C14 *)
 From Coq Require Import List NArith Arith Bool.
-From MDW Require Import Bytes Elf AbiBase.
+From MDW Require Import Bytes Elf ElfSoname Utf8 AbiBase.
 Import ListNotations.
 Local Open Scope N_scope.
 
@@ -11,6 +11,14 @@ Definition slice_mem (b : bytes) : memory :=
 Definition entry_c14 (args : list N) : list N :=
   match build_id true (slice_mem args) with
   | Ok d => 0 :: d | Err => [1] | Panic => [2] | Unspec => [3]
+  end.
+
+(* [bytes...] -> [0; name bytes...] | [1] error | [2] panic | [3] outside the modelled fragment (big-endian image, or
+   a name that is not valid UTF-8: the implementation returns its lossy decoding) *)
+Definition entry_c14_soname (args : list N) : list N :=
+  match soname (slice_mem args) with
+  | Ok d => match utf8_decode (length d) d with Some _ => 0 :: d | None => [3] end
+  | Err => [1] | Panic => [2] | Unspec => [3]
   end.
 
 (* oracle lines computed by the harness's independent reader: the expected answer is the input *)
